@@ -50,8 +50,8 @@ impl Prop for C15 {
 	}
 	fn budget(&self, tier: Tier) -> (u64, u64) {
 		match tier {
-			Tier::Quick => (120_000, 60),
-			Tier::Thorough => (4_000_000, 900),
+			Tier::Quick => (400_000, 90),
+			Tier::Thorough => (8_000_000, 1200),
 		}
 	}
 
